@@ -192,3 +192,35 @@ func PlainSerialize(root *etree.Element) []byte {
 	}
 	return b
 }
+
+// DeflateStored encodes b as a sequence of DEFLATE *stored* blocks (RFC 1951, 3.2.4) with chosen block
+// lengths and chosen values for the five ignored padding bits of each block header. Any such stream is a
+// valid DEFLATE encoding of b; compressors never emit most of them, decoders must accept all of them.
+func DeflateStored(b []byte, blockLens []int, pads []int) []byte {
+	var out []byte
+	i, k := 0, 0
+	for {
+		n := len(b) - i
+		if k < len(blockLens) && blockLens[k] < n {
+			n = blockLens[k]
+		}
+		if n > 65535 {
+			n = 65535
+		}
+		final := byte(0)
+		if i+n >= len(b) {
+			final = 1
+		}
+		pad := 0
+		if k < len(pads) {
+			pad = pads[k] & 0x1f
+		}
+		out = append(out, final|byte(pad<<3), byte(n), byte(n>>8), ^byte(n), ^byte(n>>8))
+		out = append(out, b[i:i+n]...)
+		i += n
+		k++
+		if final == 1 {
+			return out
+		}
+	}
+}
